@@ -4,6 +4,71 @@ from harness.opcorr import *
 from harness.c02 import patterns, wrapper_history_pass
 
 
+def route_pass(ctx):
+    """the duality maps through the by-name routes: with a wrapper (numspace lookup) in an interleaved history, and inside
+    registered (compiled) functions; every result compared with the plain operators on a wrapper-free algebra"""
+    from fractions import Fraction
+    from kingdon import MultiVector
+    rng = ctx.rng
+    ident = lambda f: f
+
+    def f_du(x): return x.dual().undual()
+    def f_ud(x): return x.undual().dual()
+    def f_h(x): return x.hodge().unhodge()
+    def f_join(a, b): return (a.dual() ^ b.dual()).undual()
+    def f_kind(x): return x.undual(kind='hodge')
+    for sig in ([1, 1, 1], [0, 1], [0, 1, 1, 1], [1, 1, 1, -1], [0, 1, 1], [1, -1]):
+        plain = make_algebra(sig)
+        wrapped = make_algebra(sig, wrapper=ident)
+        d = len(sig)
+        full = list(plain.canon2bin.values())
+        pats = [full, [k for k in full if grade(k) % 2 == 1], [k for k in full if grade(k) == 1], [k for k in full if grade(k) == d - 1]]
+        ops = ['dual', 'undual', 'hodge', 'unhodge'] + (['polarity', 'unpolarity'] if 0 not in sig else [])
+        calls = [(op, kx) for kx in pats for op in ops]
+        seq = calls + list(reversed(calls)) + calls
+        for op, kx in seq:
+            vals = [Fraction(rng.randint(1, 9)) for _ in kx]
+            xp = MultiVector.fromkeysvalues(plain, tuple(kx), list(vals))
+            xw = MultiVector.fromkeysvalues(wrapped, tuple(kx), list(vals))
+            case = {'sig': sig, 'route': 'wrapper-history', 'op': op, 'kx': kx}
+            ctx.case(case, tag='route:wrapper')
+            try:
+                e, g = mv_to_dict(getattr(xp, op)()), mv_to_dict(getattr(xw, op)())
+            except Exception as ex:
+                continue
+            if e != g:
+                ctx.violation('route', case, str(e)[:200], str(g)[:200], key=f'route:wrapper:{op}')
+                break
+        for alg in (plain, wrapped):
+            regs = [(f, alg.register(f)) for f in (f_du, f_ud, f_h, f_kind)]
+            rj = alg.register(f_join)
+            for kx in pats:
+                vals = [Fraction(rng.randint(1, 9)) for _ in kx]
+                x = MultiVector.fromkeysvalues(alg, tuple(kx), list(vals))
+                for f, rf in regs:
+                    case = {'sig': sig, 'route': 'registered' + ('+wrapper' if alg is wrapped else ''), 'f': f.__name__, 'kx': kx}
+                    ctx.case(case, tag='route:registered')
+                    try:
+                        e = mv_to_dict(f(x))
+                    except Exception:
+                        continue
+                    try:
+                        g = mv_to_dict(rf(x))
+                    except Exception as ex:
+                        ctx.violation('route-raises', case, str(e)[:200], repr(ex)[:200], key=f'route:registered:{f.__name__}:raises')
+                        continue
+                    if e != g:
+                        ctx.violation('route', case, str(e)[:200], str(g)[:200], key=f'route:registered:{f.__name__}')
+                if sig.count(0) <= 1:
+                    y = MultiVector.fromkeysvalues(alg, tuple(pats[2]), [Fraction(rng.randint(1, 9)) for _ in pats[2]])
+                    try:
+                        e, g = mv_to_dict(f_join(x, y)), mv_to_dict(rj(x, y))
+                        if e != g:
+                            ctx.violation('route', {'sig': sig, 'route': 'registered', 'f': 'f_join', 'kx': kx}, str(e)[:200], str(g)[:200], key='route:registered:f_join')
+                    except Exception:
+                        pass
+
+
 def run(ctx):
     ctx.rule = ('hodge, unhodge, polarity, unpolarity on key tuples and rp on ordered key-tuple pairs, for all signatures d<=3 '
                 '(sampled d=4; d<=4 all in thorough, sampled to 6), custom and named bases: compared as polynomial maps with the '
@@ -115,4 +180,5 @@ def run(ctx):
                     ctx.violation('rp-identity', {**desc, 'ky': ky, 'which': lbl}, canon_dict(mv_to_dict(y)), canon_dict(got), key='rp:identity')
     R.flush()
     wrapper_history_pass(ctx, ['rp'])
+    route_pass(ctx)
     ctx.assumptions = ['polarity/unpolarity are generated through sympy (RationalPolynomial -> lambdify with CSE): trusted printer']
